@@ -41,6 +41,9 @@ inductive Shape (var : XmlVar) : Val → Prop
   | prim (p : PVal) : var.tokens = false → var.listElement = false → Shape var (.prim p)
   | obj (c : ClassId) (fs : List (Str × Val)) : var.tokens = false → var.listElement = false →
       Shape var (.obj c fs)
+  /-- the generic element of a single wildcard -/
+  | any (q : Option QN) (t tl : Option Str) (a : List (QN × Str)) (k : List Val) :
+      var.tokens = false → var.listElement = false → Shape var (.any q t tl a k)
   | list (xs : List Val) : var.tokens = false → var.listElement = true →
       (∀ y ∈ xs, y.isArray = false) → Shape var (.list xs)
   | toks (ys : List Val) : var.tokens = true → var.listElement = false →
@@ -88,6 +91,9 @@ theorem genValue_chunk (e : BEnv) (Γ : Ctx) (cfg : SerCfg) {m : XmlMeta} {var :
   | obj c fs ht hl =>
     simp [itemsN, itemGen, ht, chunkFuel, Val.isArray, Except.map, bind, Except.bind, pure, Except.pure]
     cases genValue e Γ cfg (f + 1) (Val.obj c fs) var ns <;> simp
+  | any q t tl a k ht hl =>
+    simp [itemsN, itemGen, ht, chunkFuel, Val.isArray, Except.map, bind, Except.bind, pure, Except.pure]
+    cases genValue e Γ cfg (f + 1) (Val.any q t tl a k) var ns <;> simp
   | seqItem ht hl hy =>
     have hitems : itemsN var x = [x] := by
       cases x with
@@ -214,27 +220,39 @@ theorem chunkEq_elem (e : BEnv) (Γ : Ctx) (cfg : SerCfg) {m : XmlMeta} {var : X
     (hf : ElemFactsN m var) : ChunkEq e Γ cfg var :=
   fun _ hs hx ns f => genValue_chunk e Γ cfg hf hs hx ns f
 
+/-- a value of a non-token var that is one item: `convert_value` is `itemGen` of it -/
+theorem chunk_single (e : BEnv) (Γ : Ctx) (cfg : SerCfg) {var : XmlVar} (ht : var.tokens = false)
+    {x : Val} (hitems : itemsN var x = [x]) (harr : x.isArray = false) (ns : Option Str) (f : Nat) :
+    genValue e Γ cfg (f + 1) x var ns =
+      ((itemsN var x).mapM (itemGen e Γ cfg var ns (chunkFuel x f))).map List.flatten := by
+  simp [hitems, itemGen, ht, chunkFuel, harr, Except.map, bind, Except.bind, pure, Except.pure]
+  cases genValue e Γ cfg (f + 1) x var ns <;> simp
+
 theorem chunkEq_wild (e : BEnv) (Γ : Ctx) (cfg : SerCfg) {var : XmlVar}
     (hk : var.kind = .wildcard) (hmix : var.mixed = false) (htok : var.tokens = false)
-    (hl : var.listElement = true) : ChunkEq e Γ cfg var := by
+    (hnil : var.nillable = false) : ChunkEq e Γ cfg var := by
   intro x hs hx ns f
   cases hs with
-  | none _ h => rw [hl] at h; cases h
-  | prim p _ h => rw [hl] at h; cases h
-  | obj c fs _ h => rw [hl] at h; cases h
+  | none _ _ =>
+    rcases hx with h | h
+    · exact absurd rfl h
+    · rw [hnil] at h; cases h
+  | prim p _ _ => exact chunk_single e Γ cfg htok rfl rfl ns f
+  | obj c fs _ _ => exact chunk_single e Γ cfg htok rfl rfl ns f
+  | any q t tl a k _ _ => exact chunk_single e Γ cfg htok rfl rfl ns f
   | toks ys h _ _ => rw [htok] at h; cases h
   | tokLists yss h _ _ => rw [htok] at h; cases h
-  | list xs _ _ _ => exact genValue_chunk_wild e Γ cfg hk hmix htok hl xs ns f
+  | list xs _ hl _ => exact genValue_chunk_wild e Γ cfg hk hmix htok hl xs ns f
   | seqItem ht _ hy =>
     have hitems : itemsN var x = [x] := by
       cases x with
       | none =>
-        have hn : var.nillable = true := by rcases hx with h | h; exact absurd rfl h; exact h
-        simp [itemsN, hn]
+        rcases hx with h | h
+        · exact absurd rfl h
+        · rw [hnil] at h; cases h
       | list xs => simp [Val.isArray] at hy
       | _ => rfl
-    simp [hitems, itemGen, ht, chunkFuel, hy, Except.map, bind, Except.bind, pure, Except.pure]
-    cases genValue e Γ cfg (f + 1) x var ns <;> simp
+    exact chunk_single e Γ cfg htok hitems hy ns f
 
 /-! ### single items of non-token vars -/
 
